@@ -935,7 +935,10 @@ class ExcludeRegionState(object):  # pylint: disable=too-many-instance-attribute
             self.pendingCommands[gcode] = pendingArgs
 
             for label, value in self.gcodeParser.parse(cmd).parameterItems():
-                pendingArgs[label] = value
+                # The '' item repeats the text from the first valueless argument on; merging it would
+                # duplicate those arguments in the generated command
+                if (label):
+                    pendingArgs[label] = value
         elif (mode == EXCLUDE_EXCEPT_FIRST):
             # Capture the first instance of the command encountered
             if (not (gcode in self.pendingCommands)):
